@@ -619,23 +619,3 @@ void h_temp_roundtrip(void) {
 }
 #endif
 
-/* ------------------------------------------------------------------ janetc_const at the limit (-DEM_CONST_LIMIT): a full table refuses */
-#ifdef EM_CONST_LIMIT
-static struct { int32_t cap, cnt; Janet data[0x10002]; } emL_mem;
-int emL_equals_stub(Janet a, Janet b) { return 0; }      /* x is not in the table */
-void h_const_limit(void) {
-    em_init(0);
-    int32_t len = nd_int() ? 0xFFFF : 0xFFFE;
-    emL_mem.cap = 0x10002; emL_mem.cnt = len;
-    em_scope.consts = emL_mem.data;
-    Janet x; x.type = JANET_STRING; x.as.u64 = 99;
-    int32_t k = janetc_const(&em_c, x);
-    if (len >= 0xFFFF) {
-        __CPROVER_assert(em_errors == 1 && emL_mem.cnt == len, "comp.const: a table of 0xFFFF constants takes no more: compile error, nothing added");
-        REACH("const: table full");
-    } else {
-        __CPROVER_assert(em_errors == 0 && emL_mem.cnt == len + 1 && k == len && k <= 0xFFFF && emL_mem.data[k].as.u64 == 99, "comp.const: the last index the 16-bit field can name is still usable");
-        REACH("const: last free index");
-    }
-}
-#endif
